@@ -279,6 +279,37 @@ def Hand.caller : Hand → Caller
   | .raw k (w + 1) => .chain k (w + 1)
   | .gone => .nothing
 
+
+/-! ### re-run histories
+
+The user clears the `failed` flags, changes what fails and what is handed to an executor (anywhere in the tree) and runs
+the outermost composite again. `Edit p` is what holds for the composite at path `p` in the next run: the fault set of
+its function children, the executor assignment, the exception table — and `reset`: whether the all-of triggers of ITS
+children start empty. A workflow level re-derives its wiring on every run; a macro level is wired once and relies on
+the fresh-start reset of `Composite._on_run` (bc0a763). Every level restarts as `Exec.restart` says (outputs as the last
+run left them). -/
+
+structure Edit (E : Type) where
+  fails : Nat → Bool
+  onExec : Nat → Bool
+  exc : Nat → E
+  reset : Bool
+
+def nrestart : Tree E → (List Nat → Edit E) → Tree E
+  | .leaf, _ => .leaf
+  | .comp d _ s kids, ed =>
+    .comp (rerunDag d s (ed []).fails (ed []).onExec) (ed []).exc
+      (restart (ed []).reset d s (ed []).fails (ed []).onExec)
+      (fun k => nrestart (kids k) (fun p => ed (k :: p)))
+
+/-- a history: every run is an edit of the whole tree followed by a schedule (which may stop anywhere) -/
+def nhistory (cfg : Cfg) : Tree E → List ((List Nat → Edit E) × List (List Nat × Act)) → Option (Tree E)
+  | t, [] => some t
+  | t, (ed, acts) :: rest =>
+    match nrun cfg (nrestart t ed) acts with
+    | some t' => nhistory cfg t' rest
+    | none => none
+
 /-! ### finite presentation (driver, witnesses) -/
 
 /-- children given as an association list; everybody else is a function node -/
